@@ -166,9 +166,8 @@ Print Assumptions C15_universal_empty.
    Myhill-Nerode lower bound, which is theorem C05_nerode_lower_bound on branch `minim`
    (coq/Props/P_C05.v) - not duplicated here.  What is proved here: the statement follows from
    exactly that lower bound (nerode_lower_bound_statement is C05_nerode_lower_bound's statement,
-   verbatim); after the merge
-     Theorem C15_is_minimal_sound : C15_is_minimal_sound_statement.
-     Proof. exact (C15_is_minimal_sound_partial C05_nerode_lower_bound). Qed.              *)
+   verbatim); after the merge the full statement is closed by
+     exact (C15_is_minimal_sound_partial C05_nerode_lower_bound).                          *)
 Definition C15_is_minimal_sound_statement : Prop :=
   forall m, valid_dfa m = true -> is_minimal m = true ->
     (forall m', valid_dfa m' = true -> complete m' -> d_syms m' = d_syms m -> L_dfa m' =L L_dfa m ->
